@@ -59,6 +59,16 @@ def _cli(smt, timeout_s):
         os.unlink(path)
 
 
+def _has_quantifier(e, _memo=None):
+    memo = {} if _memo is None else _memo
+    k = e.get_id()
+    if k in memo:
+        return memo[k]
+    r = z3.is_quantifier(e) or any(_has_quantifier(c, memo) for c in e.children())
+    memo[k] = r
+    return r
+
+
 def _work(job):
     smt, timeout_ms, instantiate, fallback, mustfail = job
     t0 = time.time()
@@ -85,7 +95,7 @@ def _work(job):
             if mustfail:
                 # vacuity guard obligations must come back sat: keep the instances, drop the quantified originals (fewer
                 # hypotheses can only make `sat` easier, never turn a consistent context into an inconsistent one)
-                hyps2 = [h for h in hyps2 if not z3.is_quantifier(h)]
+                hyps2 = [h for h in hyps2 if not _has_quantifier(h)]
         else:
             hyps2, goal2 = hyps, goal
         s = z3.Solver()
